@@ -37,6 +37,7 @@ SUBP = {"cls": "inherit", "sources": {"IQ": ["tbl", "tq", None, None]}, "steps":
 POOL = {
     "P": ["tbl", "tp", None, None], "B": ["tbl", "tb", None, None], "D": ["tbl", "td", None, None],
     "A": ["tbl", "ta", None, "xa"], "P2": ["tbl", "tp", None, "p2"], "S": ["tbl", "ts", "sc", None], "SA": ["tbl", "ts", "sc", "sa"],
+    "N": ["tbl", "tn", None, None], "NA": ["tbl", "tn", None, "na"],
     "Q": ["sub", SUBP, "qq"], "QN": ["sub", SUBP, None], "C": ["cte", "cc"], "F": ["tbl", "tf", None, None],
 }
 
@@ -72,6 +73,25 @@ class Builder:
 
     def d(self, s):
         return self.draw(s)
+
+    def fstr(self, key, pos):
+        """a column given by name (str): the library resolves it against the first FROM item"""
+        self.n += 1
+        name = "f%d" % self.n
+        self.occ.append([name, key, pos])
+        return ["py", name]
+
+    def corr(self, outer_key):
+        """outer.x IN (SELECT n.k FROM n WHERE outer.m = n.m): ONE column name m on both sides of the correlation"""
+        ik = self.d(st.sampled_from(["N", "N", "NA"]))
+        self.n += 1
+        m = "f%d" % self.n
+        swap = self.d(st.booleans())
+        pair = [[m, outer_key, "corr_outer"], [m, ik, "corr_inner"]]
+        self.occ += pair[::-1] if swap else pair
+        link = ["eq", ["col", ik, m], ["col", outer_key, m]] if swap else ["eq", ["col", outer_key, m], ["col", ik, m]]
+        sub = {"cls": "inherit", "sources": {}, "steps": [["from_", [["src", ik]]], ["select", [self.f(ik, "corr_select")]], ["where", [link]]]}
+        return ["in", self.f(outer_key, "where"), ["q", sub]]
 
     def operand(self, keys, pos):
         k = self.d(st.sampled_from(keys))
@@ -144,16 +164,26 @@ def program(draw):
             if draw(st.integers(0, 5)) == 0:
                 foreign = True
                 steps.append(["where", [["eq", b.f(draw(st.sampled_from(sources)), "where"), b.f("F", "where")]]])
+            elif draw(st.integers(0, 5)) == 0:
+                steps.append(["where", [b.corr(draw(st.sampled_from(sources)))]])
+                meta["corr"] = True
             else:
                 steps.append(["where", [b.crit(sources, "where")]])
         if draw(st.integers(0, 9)) < 4:
-            steps.append(["groupby", [b.f(draw(st.sampled_from(sources)), "groupby")]])
+            steps.append(["groupby", [b.fstr(sources[0], "groupby") if draw(st.integers(0, 2)) == 0 else b.f(draw(st.sampled_from(sources)), "groupby")]])
             if draw(st.booleans()):
                 steps.append(["having", [["gt", ["fn", "Sum", [b.f(draw(st.sampled_from(sources)), "having")]], ["raw", 1]]]])
         if draw(st.integers(0, 9)) < 4:
-            steps.append(["orderby", [b.operand(sources, "orderby")]])
+            steps.append(["orderby", [b.fstr(sources[0], "orderby") if draw(st.integers(0, 2)) == 0 else b.operand(sources, "orderby")]])
         if draw(st.integers(0, 9)) < 2 and cls != "mssql":
             steps.append(["limit", [["raw", 5]]])
+        if any(x[0] == "join" for x in steps) and draw(st.integers(0, 2)) == 0:
+            # the same calls with the filtering / grouping / ordering calls made BEFORE the joins: qualification is decided when rendering
+            late = [x for x in steps if x[0] in ("where", "groupby", "having", "orderby")]
+            rest = [x for x in steps if x[0] not in ("where", "groupby", "having", "orderby")]
+            fj = next(i for i, x in enumerate(rest) if x[0] == "join")
+            steps[:] = rest[:fj] + late + rest[fj:]
+            meta["early_clauses"] = True
     elif kind in ("insert", "upsert"):
         tk = draw(st.sampled_from(["P", "B", "S", "A"]))
         sources.append(tk)
@@ -221,7 +251,7 @@ def program(draw):
             steps.append(["where", [b.crit([tk], "where")]])
         if cls == "postgresql" and draw(st.booleans()):
             steps.append(["returning", [b.f(tk, "returning")]])
-    return {"cls": cls, "steps": steps, "occ": b.occ, "sources": sources, "foreign": foreign, "kind": kind}
+    return {"cls": cls, "steps": steps, "occ": b.occ, "sources": sources, "foreign": foreign, "kind": kind, "corr": bool(meta.get("corr")), "early": bool(meta.get("early_clauses"))}
 
 
 BARE_POS = ("insert_columns", "set_target", "conflict_target", "conflict_set_target", "using", "conflict_excluded")
@@ -250,6 +280,8 @@ def expected(case, key, pos):
         return ("either", name) if is_aliased(key) else None
     if pos in EITHER_POS:
         return ("either", name)
+    if pos in ("corr_outer", "corr_inner", "corr_select"):
+        return name  # the inner query refers to a table of the outer one: both of its namespaces are needed
     if is_aliased(key) or multi_source(case):
         return name
     return None
@@ -272,7 +304,19 @@ def check_program(case):
     toks = lex.lex(sql, cls)
     out = []
     seen = set()
+    corr = [o for o in case["occ"] if o[2] in ("corr_outer", "corr_inner")]
+    if corr:
+        # one name, two references in operand order: the qualifiers must be those of the two sources, in that order
+        idx = [i for i, t in enumerate(toks) if t.kind == "qid" and t.value == corr[0][0]]
+        got = [qualifier_before(toks, i) for i in idx]
+        want = [qual_name(o[1]) for o in corr]
+        if got != want:
+            fail = "missing_qualifier" if None in got else "wrong_qualifier"
+            out.append((mksig("any", case["kind"], "correlated", "same_name", fail),
+                        "column %s of %s and of %s in a correlated subquery: expected qualifiers %r, rendered %r in %r" % (corr[0][0], corr[0][1], corr[1][1], want, got, sql)))
     for name, key, pos in case["occ"]:
+        if pos in ("corr_outer", "corr_inner"):
+            continue
         idx = [i for i, t in enumerate(toks) if t.kind == "qid" and t.value == name]
         if not idx:
             continue  # the clause is not rendered by this dialect/statement shape
@@ -318,7 +362,7 @@ def sqlite_prepare(sql, case):
     con = sqlite3.connect(":memory:")
     try:
         con.execute("ATTACH ':memory:' AS sc")
-        for t in ("tp", "tb", "td", "ta", "tq", "tf", "sc.ts", "cc"):
+        for t in ("tp", "tb", "td", "ta", "tq", "tf", "tn", "sc.ts", "cc"):
             con.execute("CREATE TABLE %s (%s)" % (t, ",".join('"%s"' % c for c in cols)))
         try:
             con.execute("EXPLAIN " + sql)
@@ -350,10 +394,19 @@ def valid_case(case):
         # the recorded facts must still describe the program
         txt = json.dumps(case["steps"])
         import re as _re
-        names = [o[0] for o in case["occ"]]
+        names = [o[0] for o in case["occ"] if o[2] != "corr_inner"]
+        ncorr = [o[2] for o in case["occ"] if o[2] in ("corr_outer", "corr_inner")]
+        if sorted(ncorr) not in ([], ["corr_inner", "corr_outer"]):
+            return False
         if len(set(names)) != len(names) or any(not _re.fullmatch(r"f[0-9]+", n) for n in names):
             return False
         if any('"%s"' % o[0] not in txt for o in case["occ"]):
+            return False
+        if bool(case.get("foreign")) != ('["col", "F",' in txt):
+            return False  # the recorded facts (a reference to a table outside the statement) must still describe the program
+        if case["kind"] in ("select", "delete") and not any(st_[0] == "from_" for st_ in case["steps"]):
+            return False
+        if bool(case.get("corr")) != any(o[2] == "corr_outer" for o in case["occ"]):
             return False
         declared = [s[1][0][1] for s in case["steps"] if s[0] in ("from_", "into", "update") and s[1] and s[1][0][0] == "src"] + [s[1][0][1] for s in case["steps"] if s[0] == "join"]
         want = set(case["sources"])
@@ -393,7 +446,7 @@ def run_shard(shard):
                 sample = {"cls": case["cls"], "kind": case["kind"], "sql": prog.build_program({"cls": case["cls"], "sources": POOL, "steps": case["steps"]}).get_sql(prog.sql_context(case["cls"]))}
             except Exception:
                 pass
-        col.case(case, nontrivial(case), classes=("kind:" + case["kind"], "cls:" + case["cls"], "multi:%s" % multi_source(case)) + tuple("shape:" + POOL[s][0] + ("_aliased" if is_aliased(s) else "") for s in case["sources"]), sample=sample)
+        col.case(case, nontrivial(case), classes=("kind:" + case["kind"], "correlated:%s" % bool(case.get("corr")), "early_clauses:%s" % bool(case.get("early")), "cls:" + case["cls"], "multi:%s" % multi_source(case)) + tuple("shape:" + POOL[s][0] + ("_aliased" if is_aliased(s) else "") for s in case["sources"]), sample=sample)
         for sig, detail in res:
             col.violation(sig, case, detail)
 
